@@ -1,5 +1,6 @@
 import DadiVerif.Lemmas.ModelDSL
-import DadiVerif.Lemmas.ModelTable
+import DadiVerif.Generated.Models
+import DadiVerif.Model.ModelPairs
 /-!
 # C15 — library models are well-formed and reduce to their nested special cases
 
@@ -27,21 +28,40 @@ error, which shrinks with the time step), finiteness and non-negativity of the s
 namespace DadiVerif
 open ModelDSL Gen.Models
 
+set_option maxRecDepth 100000
+
+/-! ## the finite checks over the generated table (`decide +kernel` over complete tables: every statement evaluates a
+decision procedure of Model/ModelDSL.lean on `Gen.Models.table` / `Gen.Models.sigs` in the kernel) -/
+namespace C15Facts
+theorem table_wellFormed : table.all (wellFormed table sigs) = true := by decide +kernel
+theorem ms_wellFormed : msTable.all msWellFormed = true := by decide +kernel
+theorem table_names_unique : table.all (fun m => findModel table m.name == some m) = true := by decide +kernel
+theorem sigs_names_unique : sigs.all (fun s => findSig sigs s.fn == some s) = true := by decide +kernel
+theorem nest_zeroMigration : Pairs.zeroMigration.all (fun p => nestOK table sigs p.a p.b p.args) = true := by decide +kernel
+theorem nest_zeroEpoch : Pairs.zeroEpoch.all (fun p => nestOK table sigs p.a p.b p.args) = true := by decide +kernel
+theorem nest_equalRates : Pairs.equalRates.all (fun p => nestOK table sigs p.a p.b p.args) = true := by decide +kernel
+theorem nest_zeroSelection : Pairs.zeroSelection.all (fun p => nestOK table sigs p.a p.b p.args) = true := by decide +kernel
+theorem nest_equalSelection : Pairs.equalSelection.all (fun p => nestOK table sigs p.a p.b p.args) = true := by decide +kernel
+theorem nest_composite : Pairs.composite.all (fun p => nestOK table sigs p.a p.b p.args) = true := by decide +kernel
+theorem swap_symmetric : Pairs.symmetric.all (fun p => swapOK table sigs swapRules12 p.name p.args) = true := by
+  decide +kernel
+end C15Facts
+
 /-- every model function of the six files passes the checker, and the three ms-command builders unpack exactly the
     parameters they name -/
 theorem C15_wellformed :
     table.all (wellFormed table sigs) = true ∧ msTable.all msWellFormed = true :=
-  ⟨TableFacts.table_wellFormed, TableFacts.ms_wellFormed⟩
+  ⟨C15Facts.table_wellFormed, C15Facts.ms_wellFormed⟩
 
 /-- the zero-duration law is claimed exactly for the functions whose source begins with the early return -/
 theorem C15_zero_duration_integrators :
     integrators sigs =
       [nm! "Integration.one_pop", nm! "Integration.two_pops", nm! "Integration.three_pops",
-       nm! "Integration.four_pops", nm! "Integration.five_pops"] :=
-  TableFacts.integrators_eq
+       nm! "Integration.four_pops", nm! "Integration.five_pops"] := by
+  decide +kernel
 
 theorem mem_table_find {m : Model} (hm : m ∈ table) : findModel table m.name = some m := by
-  have h := List.all_eq_true.mp TableFacts.table_names_unique m hm
+  have h := List.all_eq_true.mp C15Facts.table_names_unique m hm
   simpa using h
 
 /-- **exact arity**: every model with named parameters runs (symbolically) on the vector of its named parameters and
@@ -92,17 +112,17 @@ theorem nestsIn_of_all {ps : List Pairs.NestPair}
   fun p hp I hI ρ => nestOK_sound hI ρ (List.all_eq_true.mp h p hp)
 
 /-- migration rates set to 0 (33 pairs, e.g. `sym_mig(nu1, nu2, 0, T) = no_mig(nu1, nu2, T)`) -/
-theorem C15_nesting_zero_migration : NestsIn Pairs.zeroMigration := nestsIn_of_all TableFacts.nest_zeroMigration
+theorem C15_nesting_zero_migration : NestsIn Pairs.zeroMigration := nestsIn_of_all C15Facts.nest_zeroMigration
 /-- an epoch of length 0 (36 pairs, e.g. `IM_pre(1, 0, s, …) = IM(s, …)`, `bottlegrowth_split(nuB, nuF, T, 0) = bottlegrowth_2d`) -/
-theorem C15_nesting_zero_epoch : NestsIn Pairs.zeroEpoch := nestsIn_of_all TableFacts.nest_zeroEpoch
+theorem C15_nesting_zero_epoch : NestsIn Pairs.zeroEpoch := nestsIn_of_all C15Facts.nest_zeroEpoch
 /-- equal asymmetric rates (17 pairs, e.g. `split_asym_mig(nu1, nu2, T, m, m) = split_mig(nu1, nu2, T, m)`) -/
-theorem C15_nesting_equal_rates : NestsIn Pairs.equalRates := nestsIn_of_all TableFacts.nest_equalRates
+theorem C15_nesting_equal_rates : NestsIn Pairs.equalRates := nestsIn_of_all C15Facts.nest_equalRates
 /-- zero selection (16 pairs, e.g. `split_mig_sel_single_gamma(nu1, nu2, T, m, 0) = split_mig(nu1, nu2, T, m)`) -/
-theorem C15_nesting_zero_selection : NestsIn Pairs.zeroSelection := nestsIn_of_all TableFacts.nest_zeroSelection
+theorem C15_nesting_zero_selection : NestsIn Pairs.zeroSelection := nestsIn_of_all C15Facts.nest_zeroSelection
 /-- equal selection in both populations (8 pairs, e.g. `IM_sel(…, γ, γ) = IM_sel_single_gamma(…, γ)`) -/
-theorem C15_nesting_equal_selection : NestsIn Pairs.equalSelection := nestsIn_of_all TableFacts.nest_equalSelection
+theorem C15_nesting_equal_selection : NestsIn Pairs.equalSelection := nestsIn_of_all C15Facts.nest_equalSelection
 /-- combinations, and the `_size` models with the same sizes in both epochs (18 pairs) -/
-theorem C15_nesting_composite : NestsIn Pairs.composite := nestsIn_of_all TableFacts.nest_composite
+theorem C15_nesting_composite : NestsIn Pairs.composite := nestsIn_of_all C15Facts.nest_composite
 
 /-- the groups are not empty -/
 theorem C15_nesting_counts :
@@ -121,7 +141,7 @@ theorem C15_swap_syntactic (p : Pairs.SwapPair) (hp : p ∈ Pairs.symmetric)
     ∃ m, findModel table p.name = some m ∧
       sem I ρ table sigs p.name p.args
         = (sem (I.withFinishArgs nsSwap) ρ table sigs p.name (m.paramNames.map .param)).map τOut :=
-  swapOK_sound hI hS ρ (List.all_eq_true.mp TableFacts.swap_symmetric p hp)
+  swapOK_sound hI hS ρ (List.all_eq_true.mp C15Facts.swap_symmetric p hp)
 
 /-! ## non-vacuity: concrete interpretations satisfying the hypotheses -/
 
@@ -199,7 +219,7 @@ example :
   finish fn d _ := (findSig sigs fn).bind fun s => if s.kind = .finish ∧ (s.dimIn = 0 ∨ s.dimIn = d) then some () else none
 
 theorem mem_sigs_find {s : Sig} (hs : s ∈ sigs) : findSig sigs s.fn = some s := by
-  have h := List.all_eq_true.mp TableFacts.sigs_names_unique s hs
+  have h := List.all_eq_true.mp C15Facts.sigs_names_unique s hs
   simpa using h
 
 theorem dimInterp_typed : Typed dimInterp sigs (fun d => d) where
